@@ -341,7 +341,7 @@ inductive Op where
   | watchdog
   | restart
   | seed (tape : List Nat)
-  deriving Repr
+  deriving Repr, DecidableEq
 
 /-- `handletimeouts`: every unfinished job whose timeout has passed, in heap order
 `(timeout, priority, serial)`. -/
@@ -394,7 +394,7 @@ def restart (s : St) : St :=
     running := []
     jwait := []
     hubq := []
-    dead := s.dead ++ s.dying ++ s.waiters.map (·.1) ++ s.mail.map (·.w) ++ s.running.map (·.1) ++ s.jwait.map (·.w)
+    dead := []                 -- a new server process: every connection id is free again
     dying := []
     counts := []
     requeued := s.requeued ++ held }
